@@ -399,6 +399,7 @@ class FseDriver:
         self.em = self.mod.FSEventsEmitter(self.q, ObservedWatch(root, recursive=recursive), timeout=0.01)
         self.root = root
         self.next_id = 1
+        self.vmap = None          # real st_ino -> the inode number the simulated file system handed out (inode re-use)
 
     def view(self):
         return sorted(self.em._fs_view)
@@ -409,7 +410,27 @@ class FseDriver:
         for p, i, f in natives:
             evs.append(cls(p, i, f, self.next_id))
             self.next_id += 1
-        self.em.queue_events(0.01, evs)
+        if self.vmap is None:
+            self.em.queue_events(0.01, evs)
+            return drain(self.q)
+        # the emitter's os.stat must see the simulated inode numbers: proxy `os` in the fsevents module namespace only
+        real_os, vmap = self.mod.os, self.vmap
+
+        class _St:
+            def __init__(self, st):
+                self.st_ino = vmap.get(st.st_ino, st.st_ino)
+
+        class _Os:
+            def __getattr__(self, name):
+                return getattr(real_os, name)
+
+            def stat(self, path, *a, **k):
+                return _St(real_os.stat(path, *a, **k))
+        self.mod.os = _Os()
+        try:
+            self.em.queue_events(0.01, evs)
+        finally:
+            self.mod.os = real_os
         return drain(self.q)
 
     def oracles(self, natives):
@@ -417,6 +438,8 @@ class FseDriver:
         for p, i, f in natives:
             try:
                 ino = os.stat(p).st_ino
+                if self.vmap is not None:
+                    ino = self.vmap.get(ino, ino)
             except OSError:
                 ino = None
             out[p] = (ino, read_tree(p))
@@ -834,6 +857,129 @@ def resolve_hypotheses(ctx, res, pend):
             res.mismatches.append(Mismatch(pair, oj, str(out), str(want)))
 
 
+STICKY_MASK = F_CREATED | F_MODIFIED | F_META     # the flags fsevents.py calls "spurious ... coalesced from an already processed event"
+
+
+def parse_script(js):
+    return [[((st[0], tuple(st[1])) + tuple(tuple(x) if isinstance(x, list) else x for x in st[2:-1]), bool(st[-1])) for st in b]
+            for b in js]
+
+
+def run_sticky_history(ctx, res, rng, hid, pend, script=None, opts=None):
+    """FSEvents only.  One (sometimes two) operations per batch with the two environment choices the uncut, reuse-free
+    histories never exercise:
+      * per-item sticky flags across batch cuts: when an item is mentioned again at the same path in a later batch the
+        event repeats the ItemCreated / ItemModified / ItemInodeMetaMod flags it accumulated earlier (the case the
+        comments in fsevents.py describe; a removed or renamed-away (item, path) forgets its flags);
+      * inode re-use: the simulated file system may hand the inode number of a deleted item to the next created one
+        (ext4, HFS+ do; tmpfs here does not, so the number is mapped - the emitter's os.stat sees the mapped numbers).
+    script: [[(chosen operation, reuse?) ...] ...] for the corpus; None = random."""
+    w = World(rng)
+    try:
+        opts = opts or {}
+        seed_tree = opts.get("seed_tree", {} if script is not None else ({"a": None, "d": {}} if hid % 2 else {}))
+        w.seed(seed_tree)
+        rec_f = opts.get("recursive", True if script is not None else hid % 5 != 4)
+        fd = FseDriver(w.root, rec_f)
+        fd.vmap = {}
+        sticky, freed, trace = {}, [], []
+        script_log = []          # the history as a replayable script: [[[op, path, ..., inode re-used?] ...] ...]
+        gen = {}                 # inode number -> generation of the item that currently owns it (items, not numbers, coalesce)
+        sticky_on = opts.get("sticky", True if script is not None else hid % 4 != 3)
+        n_batches = len(script) if script is not None else rng.choice([5, 7, 9])
+        for b in range(n_batches):
+            before = listing(w.root)
+            fs_before = list(w.fs)
+            view0 = fd.view()
+            ops, fn, kinds_at = [], [], []
+            script_log.append([])
+            if script is not None:
+                plan = script[b]
+            else:
+                k = rng.choice([1, 1, 1, 2])
+                kinds = ["create", "create", "unlink", "unlink", "write", "chmod"] + ([] if k == 2 else ["mkdir", "rmdir", "rename", "moveout", "movein"])
+                plan = [(None, rng.random() < 0.7) for _ in range(k)]
+            for c, reuse in plan:
+                if c is None:
+                    c = w.choose(rng.choice(kinds))
+                    if c is None:
+                        continue
+                cur = list(w.fs)
+                kinds_at.append({p: k_ for p, k_, _ in cur})
+                o = w.execute(c)
+                reused = False
+                if o[0] in ("create", "mkdir"):
+                    if reuse and freed:
+                        fd.vmap[o[2]] = freed.pop(0)
+                        reused = True
+                        res.hist("sticky_inode_reused", True)
+                    o = (o[0], o[1], fd.vmap.get(o[2], o[2]))
+                    gen[o[2]] = gen.get(o[2], 0) + 1
+                if o[0] in ("unlink", "rmdir"):
+                    freed.append({p: i for p, _, i in cur}[o[1]])
+                ops.append(o)
+                script_log[-1].append([c[0], list(c[1])] + [list(x) if isinstance(x, tuple) else x for x in c[2:]] + [reused])
+                pend["apply"].append((fs_wire(cur), op_wire(o), py_apply(cur, o), op_json(o)))
+                raw = py_fse_kernel(w.root, cur, o)
+                pend["kern"].append((op_wire(o), py_win_kernel(o), w.root, fs_wire(cur), raw))
+                for p_, i_, fl in raw:
+                    acc = sticky.get((p_, i_), 0) | fl
+                    fn.append((p_, i_, (fl | (acc & STICKY_MASK)) if sticky_on else fl, gen.get(i_, 0)))
+                    if fl & F_REMOVED or (fl & F_RENAMED and o[0] in ("rename", "moveout") and p_ == w.ap(o[1])):
+                        sticky.pop((p_, i_), None)
+                    else:
+                        sticky[(p_, i_)] = acc
+                w.fs = py_apply(cur, o)
+                res.hist("sticky_op", o[0])
+            if not ops:
+                continue
+            # FSEvents coalesces per ITEM and path: a new item that got a recycled inode number is a different item
+            merged = []
+            for p_, i_, fl, g_ in fn:
+                for j, (p2, i2, f2, g2) in enumerate(merged):
+                    if (p2, i2, g2) == (p_, i_, g_):
+                        merged[j] = (p2, i2, f2 | fl, g2)
+                        break
+                else:
+                    merged.append((p_, i_, fl, g_))
+            fn = [(p_, i_, fl) for p_, i_, fl, _ in merged]
+            after = {p: (k_, fd.vmap.get(i, i)) for p, (k_, i) in listing(w.root).items()}
+            res.traces_validated += 1
+            mf = {p: (k_, i) for p, k_, i in w.fs}
+            if mf != after:
+                res.mismatches.append(Mismatch("PlatFs.apply_op vs real file system (sticky histories)", [op_json(o) for o in ops], str(sorted(mf))[:300], str(sorted(after))[:300]))
+            forc = fd.oracles(fn)
+            fev = [ev_tuple(e) for e in fd.feed(fn)]
+            pend["fse"].append((rec_f, w.root, view0, fn, forc, fev, fd.view(), [op_json(o) for o in ops]))
+            res.evaluations += 1
+            spurious = any(fl & F_CREATED and i in view0 for _, i, fl in fn)
+            res.hist("sticky_spurious_created_flag", spurious)
+            res.hist("sticky_created_and_removed_of_known_inode", any(fl & F_CREATED and fl & F_REMOVED and i in view0 for _, i, fl in fn))
+            mode = "one-op-per-batch" if len(ops) == 1 else "several-ops-per-batch"
+            for law, detail, extra in check_step("fsevents", rec_f, w.root, before, after, ops, fev, kinds_at):
+                sig = make_sig("fsevents", law, mode, extra, fn)
+                sig["environment"] = "sticky-flags-and-inode-reuse"
+                res.failures.append(Failure(
+                    what=f"FSEventsEmitter: {law} law violated (sticky per-item flags across batch cuts / inode re-use)", signature=sig,
+                    case={"emitter": "fsevents", "fsevents_script": [b_ for b_ in script_log if b_],
+                          "opts": {"seed_tree": seed_tree, "recursive": rec_f, "sticky": sticky_on},
+                          "failing_batch": {"ops": [op_json(o) for o in ops], "natives": fn, "fs_view_before": view0}},
+                    observed=detail + " | _fs_view before " + str(view0) + " | events " + str(fev)[:400], expected="C01/C03 contract"))
+            if not rec_f:
+                for e in flat_violations(w.root, fev):
+                    res.failures.append(Failure(what="FSEventsEmitter: non-recursive watch reported something below the root's direct children",
+                                                signature={"emitter": "fsevents", "law": "flat"},
+                                                case={"emitter": "fsevents", "recursive": False, "ops": [op_json(o) for o in ops], "natives": fn},
+                                                observed=str(e), expected="only the root and its direct children"))
+            trace.append({"ops": [op_json(o) for o in ops], "fse_natives": fn, "fse_events": fev[:6]})
+            if spurious or fd.vmap:
+                res.nontrivial.add(core.digest(["sticky", [op_json(o) for o in ops], fn and [(f_, i_ in view0) for _, i_, f_ in fn]]))
+        if script is None and hid < 2 and len(trace) >= 3:
+            res.samples.append({"sticky_history": hid, "steps": trace[:4]})
+    finally:
+        w.close()
+
+
 def run_removed_self(ctx, res: Result):
     """The synthetic buffer winapi builds when the watched directory itself is deleted, end to end:
     _generate_observed_path_deleted_event -> _parse_event_buffer -> queue_events = DirDeletedEvent(root) + stop."""
@@ -876,7 +1022,7 @@ def run(ctx, res: Result):
     run_removed_self(ctx, res)
     for c in ctx.corpus():
         c = c.get("case", c)
-        if c.get("emitter"):
+        if c.get("emitter") and not c.get("fsevents_script"):
             replay(ctx, c, res, quiet=True)
     rng = ctx.rng("emit")
     pend = {"apply": [], "kern": [], "win": [], "fse": [], "con": [], "hyp": []}
@@ -886,17 +1032,33 @@ def run(ctx, res: Result):
         run_history(ctx, res, rng, h, rng.choice([4, 6, 8, 10]), False, pend)
     for h in range(n_burst):
         run_history(ctx, res, rng, h, rng.choice([4, 6, 8]), True, pend)
+    for c in ctx.corpus():
+        c = c.get("case", c)
+        if c.get("fsevents_script"):
+            run_sticky_history(ctx, res, ctx.rng("sticky-corpus"), 0, pend, script=parse_script(c["fsevents_script"]), opts=c.get("opts"))
+    srng = ctx.rng("sticky")
+    n_sticky = 80 if not ctx.thorough else 800
+    for h in range(n_sticky):
+        run_sticky_history(ctx, res, srng, h, pend)
     resolve(ctx, res, pend)
     resolve_contracts(ctx, res, pend)
     resolve_hypotheses(ctx, res, pend)
     res.notes.append(f"emitters: {n_hist} one-op-per-batch histories and {n_burst} burst histories (2-3 operations per batch, "
                      "FSEvents batches coalesced per (item, path) with probability 1/2) over names {a,b,c,ab}, depth <= 4, executed on a "
                      "real scratch directory; Windows natives through read_events/_parse_event_buffer; non-trivial = a rename / "
-                     "move in / move out of a directory with content, or any burst")
+                     "move in / move out of a directory with content, or any burst; plus "
+                     f"{n_sticky} FSEvents histories with per-item sticky flags across batch cuts (created/modified/meta repeated "
+                     "when the item is mentioned again) and inode re-use (a deleted item's number handed to the next created one)")
 
 
 def replay(ctx, case, res: Result, quiet=False):
     """Re-run a recorded emitter case: rebuild the tree, re-execute the operations, feed the recorded natives."""
+    if case.get("fsevents_script"):
+        # a whole FSEvents history (sticky flags / inode re-use): re-executed from the start, model compared as well
+        pend = {"apply": [], "kern": [], "win": [], "fse": [], "con": [], "hyp": []}
+        run_sticky_history(ctx, res, ctx.rng("sticky-replay"), 0, pend, script=parse_script(case["fsevents_script"]), opts=case.get("opts"))
+        resolve(ctx, res, pend)
+        return
     root_scratch = os.path.realpath(tempfile.mkdtemp(prefix="wdr", dir="/dev/shm" if os.path.isdir("/dev/shm") else None))
     try:
         root = os.path.join(root_scratch, "r")
